@@ -233,6 +233,8 @@ class FnCtx:
         for p in (fn.get('freevars') or []):
             v = V.named_val(types, p['type'], 'fv_' + p['name'])
             st.type_facts(v, known_old=True)
+            if types.kind(p['type']) == 'ptr':
+                st.assume(v.term != 0)   # a captured variable's cell always exists
             st.regs[p['name']] = v
             # captured variables are pointers to cells: contracts name the variable itself
             self.base_env[p['name']] = (lambda v=v, st0=None: v)
@@ -241,8 +243,9 @@ class FnCtx:
         self.entry_state = st.copy()
         self.entry_state.cx = self
         # preconditions
-        ev = self.evaluator(st, fr)
+        self._cur_state = st
         self.patch_freevars(st)
+        ev = self.evaluator(st, fr)
         for c in self.contract.requires:
             try:
                 st.assume(ev.bool(c.expr))
